@@ -173,4 +173,158 @@ theorem verifyPwl_spec {kp omin omax mono conv cyc kpt lengths : Val} {c : PwlCf
                       parseLengths_pos hls, hiLtLo_false (by simpa using hb),
                       monoOf_code (canonMonotonicity_num hm), monoOf_code (canonConvexity_num hcv)⟩
 
+/-! ### inversion of `verifyPwl` / `pwlCalibration` (used by Props/C04Accepted.lean, Props/C05Accepted.lean) -/
+
+/-- every check of `verifyPwl` passed, and the result is assembled from the parsed pieces -/
+theorem verifyPwl_inv {kp omin omax mono conv cyc kpt lengths : Val} {c : PwlCfg}
+    (h : verifyPwl kp omin omax mono conv cyc kpt lengths = .ok c) :
+    ∃ k lo hi m cv ls, parseKeypoints kp = .ok k ∧ boundOf omin = .ok lo ∧ boundOf omax = .ok hi ∧
+      hiLtLo lo hi = false ∧ canonMonotonicity true mono.toItem = .ok m ∧ canonConvexity conv.toItem = .ok cv ∧
+      (cyc.truthy && (m.truthy || cv.truthy)) = false ∧ parseLengths lengths = .ok ls ∧
+      c = ⟨k, lo, hi, m, cv, cyc.truthy, ls⟩ := by
+  simp only [verifyPwl, bind, Except.bind] at h
+  split at h
+  · cases h
+  · rename_i k hk
+    split at h
+    · cases h
+    · rename_i lo hlo
+      split at h
+      · cases h
+      · rename_i hi hhi
+        split at h
+        · cases h
+        · rename_i hb
+          split at h
+          · cases h
+          · rename_i m hm
+            split at h
+            · cases h
+            · rename_i cv hcv
+              split at h
+              · cases h
+              · rename_i hcyc
+                split at h
+                · cases h
+                · rename_i ls hls
+                  split at h
+                  · cases h
+                  · simp only [pure, Except.pure, Except.ok.injEq] at h
+                    exact ⟨k, lo, hi, m, cv, ls, hk, hlo, hhi, by simpa using hb, hm, hcv, by simpa using hcyc,
+                      hls, h.symm⟩
+
+/-- a falsy canonical code (`None`, `0`, `0.0`) is the integer code 0 -/
+theorem monoOf_of_not_truthy {a : Atom} (h : a.truthy = false) : monoOf a = 0 := by
+  cases a with
+  | none => rfl
+  | int i =>
+    have : i = 0 := by simpa [Atom.truthy] using h
+    subst this
+    simp only [monoOf, Atom.num]
+    exact_mod_cast Rat.floor_intCast 0
+  | flt r =>
+    have : r = 0 := by simpa [Atom.truthy] using h
+    subst this
+    simp only [monoOf, Atom.num]
+    exact_mod_cast Rat.floor_intCast 0
+  | str t e => simp [Atom.truthy] at h
+
+/-- `is_cyclic` is accepted only without monotonicity and convexity -/
+theorem verifyPwl_cyclic {kp omin omax mono conv cyc kpt lengths : Val} {c : PwlCfg}
+    (h : verifyPwl kp omin omax mono conv cyc kpt lengths = .ok c) (hc : c.cyclic = true) :
+    monoOf c.mono = 0 ∧ monoOf c.conv = 0 := by
+  obtain ⟨k, lo, hi, m, cv, ls, -, -, -, -, -, -, hcyc, -, rfl⟩ := verifyPwl_inv h
+  simp only at hc ⊢
+  rw [hc] at hcyc
+  simp only [Bool.true_and, Bool.or_eq_false_iff] at hcyc
+  exact ⟨monoOf_of_not_truthy hcyc.1, monoOf_of_not_truthy hcyc.2⟩
+
+/-- accepted keypoints: at least two, strictly increasing -/
+theorem parseKeypoints_two {v : Val} {o : Option (List Rat)} (h : parseKeypoints v = .ok o) :
+    ∀ ks, o = some ks → 2 ≤ ks.length := by
+  intro ks hks
+  unfold parseKeypoints at h
+  split at h
+  · simp only [Except.ok.injEq] at h; subst h; cases hks
+  · simp only [bind, Except.bind] at h
+    split at h
+    · cases h
+    · rename_i n hn
+      split at h
+      · cases h
+      · rename_i hn2
+        split at h
+        · cases h
+        · rename_i xs hxs
+          split at h
+          · cases h
+          · rename_i ys hys
+            split at h
+            · cases h
+            · simp only [pure, Except.pure, Except.ok.injEq] at h
+              subst h
+              cases hks
+              have hl := mapE_length hys
+              have hnx : n = xs.length := by
+                cases v with
+                | a x => cases x <;> simp [Val.len, te, oe] at hn hxs
+                | s t zs =>
+                  simp only [Val.len, Val.iter, Except.ok.injEq] at hn hxs
+                  rw [← hn, ← hxs]
+              omega
+
+theorem parseKeypoints_some {v : Val} {o : Option (List Rat)} (h : parseKeypoints v = .ok o)
+    (hv : v.isNone = false) : ∃ ks, o = some ks := by
+  unfold parseKeypoints at h
+  rw [if_neg (by simp [hv])] at h
+  simp only [bind, Except.bind] at h
+  split at h
+  · cases h
+  · split at h
+    · cases h
+    · split at h
+      · cases h
+      · split at h
+        · cases h
+        · split at h
+          · cases h
+          · simp only [pure, Except.pure, Except.ok.injEq] at h
+            exact ⟨_, h.symm⟩
+
+theorem verifyPwl_keypoints {kp omin omax mono conv cyc kpt lengths : Val} {c : PwlCfg}
+    (h : verifyPwl kp omin omax mono conv cyc kpt lengths = .ok c) (ks : List Rat)
+    (hk : c.keypoints = some ks) : 2 ≤ ks.length ∧ strictlyIncreasing ks = true := by
+  obtain ⟨k, lo, hi, m, cv, ls, hkp, -, -, -, -, -, -, -, rfl⟩ := verifyPwl_inv h
+  exact ⟨parseKeypoints_two hkp ks hk, parseKeypoints_inc hkp ks hk⟩
+
+/-- the number of pieces -/
+theorem length_pieceLengths (ks : List Rat) : (pieceLengths ks).length = ks.length - 1 := by
+  unfold pieceLengths
+  rw [List.length_zipWith, List.length_tail]
+  omega
+
+/-- `PWLCalibration.__init__` accepted: the lib verification passed on the same arguments, and
+`input_keypoints` is not `None` -/
+theorem pwlCalibration_inv {r : RawPwl} {c : PwlCfg} (h : pwlCalibration r = .ok c) :
+    verifyPwl r.kp r.omin r.omax r.mono r.conv r.cyclic r.kptype = .ok c ∧ r.kp.isNone = false := by
+  simp only [pwlCalibration, bind, Except.bind] at h
+  split at h
+  · cases h
+  · rename_i c' hc'
+    split at h
+    · cases h
+    · split at h
+      · cases h
+      · split at h
+        · cases h
+        · rename_i hk
+          split at h
+          · cases h
+          · split at h
+            · cases h
+            · split at h
+              · cases h
+              · simp only [pure, Except.pure, Except.ok.injEq] at h
+                subst h; exact ⟨hc', by simpa using hk⟩
+
 end Tfl.Verify
